@@ -45,7 +45,7 @@ def designs(tier, rnd):
         for k0, k1 in itertools.product(mids, mids):
             for shared in (True, False):
                 for topleaf in (None, "ext", "prim"):
-                    for adv in (None, "m0:n", "m0:x:n", "m1:m2", "n", "port:m0:n", "port:m0:x:n", "m0:x:l", "late:m0:x:l", "late:m1:x:l2", "inst:m0:x:l", "inst:m1:y:l2"):
+                    for adv in (None, "m0:n", "m0:x:n", "m1:m2", "n", "port:m0:n", "port:m0:x:n", "m0:x:l", "late:m0:x:l", "late:m1:x:l2", "inst:m0:x:l", "inst:m1:y:l2", "modinst:m0:x"):
                         mods = {"Leafm": leafmod(lk), "M0": mids[k0](), "M1": mids[k0]() if shared else mids[k1]()}
                         if shared:
                             mods.pop("M1")
@@ -59,7 +59,15 @@ def designs(tier, rnd):
                         m1kind = k0 if shared else k1
                         if adv == "inst:m1:y:l2" and m1kind == "thru":
                             continue        # no such nested leaf: the name would not collide, and could not be told from a path
-                        if adv and adv.startswith("inst:"):
+                        if adv and adv.startswith("modinst:"):
+                            # a top-level instance OF A MODULE named like the ':'-joined path of a nested instance: the internal nets of the two
+                            # (both called n) get one path-name although they are different nets
+                            mods["Adv"] = U.mod([U.sig("a", 1, True), U.sig("n", 1)],
+                                                [U.inst("q1", "L1", [("a", Sig("n"))], k="ext"), U.inst("q2", "L12", [("a", Sig("n")), ("b", Sig("n2"))], k="ext"),
+                                                 U.inst("q3", "L1", [("a", Sig("a"))], k="ext")], probes=False)
+                            mods["Adv"]["sigs"].append(U.sig("n2", 2))
+                            insts.append(U.inst(adv[8:], "Adv", [("a", Sig("g"))]))
+                        elif adv and adv.startswith("inst:"):
                             # a top-level leaf instance named like the ':'-joined path of a nested leaf
                             insts.append(U.inst(adv[5:], "L1", [("a", Sig("g"))], k="ext"))
                         elif adv:
